@@ -7,6 +7,7 @@ run the documented recovery, and (thorough) crash the recovery itself and recove
 observed is compared with the Coq model Model/CrashFS.v after the same prefix of atomic steps; the
 property statement is checked by an independent Python oracle."""
 import json
+import re
 import os
 import shutil
 import subprocess
@@ -98,8 +99,18 @@ class Exploration:
             return f"(OReap {self.scen.coq_kind()} {X.deletion_schedule(self.dry['events'])})"
         return "(" + self.model_op.replace("SW", self.scen.coq_sweep()) + ")"
 
+    def coq_steps(self):
+        """the model's atomic steps of the operation from the pre-state"""
+        if self.opname == "resow-grown" and self.scen.kind == "Sampler":
+            # sow_samples clears the results of the earlier sow first, in directory-listing order
+            ids = [int(m.group(1)) for e in self.dry["events"] if "i" in e and e["k"] == "unlink"
+                   for m in [re.search(r"xyz-result-(\d+)\.jbdmp$", e["p"])] if m]
+            return (f"(resow_samples_steps {self.coq_pre()} {core.natlist(ids)} "
+                    f"{self.scen.coq_sweep()} 3)")
+        return f"(steps_of {X.F_COQ} {self.coq_op()} {self.coq_pre()})"
+
     def coq_crashed(self, k):
-        return f"(crash (steps_of {X.F_COQ} {self.coq_op()} {self.coq_pre()}) {k} {self.coq_pre()})"
+        return f"(crash {self.coq_steps()} {k} {self.coq_pre()})"
 
     def describe(self):
         return {"scenario": self.scen.describe(), "operation": self.opname, "pre_ops": self.pre, "op": self.op,
@@ -500,10 +511,10 @@ def run(tier, seed, only=None):
                                     {"exploration": ex.tag, "events": unknown[:5]})
             pairs.append((f"enc_state {ex.coq_pre()}", X.state_val(ex.tpl_state)))
             metas.append({"what": "pre-state", "exploration": ex.tag})
-            pairs.append((f"enc_steps (steps_of {X.F_COQ} {ex.coq_op()} {ex.coq_pre()})", steps))
+            pairs.append((f"enc_steps {ex.coq_steps()}", steps))
             metas.append({"what": "atomic steps of the uninterrupted operation", "exploration": ex.tag,
                           "events": [[e["k"], e["p"]] for e in ex.dry["events"] if "i" in e][:60]})
-            pairs.append((f"enc_state (run (steps_of {X.F_COQ} {ex.coq_op()} {ex.coq_pre()}) {ex.coq_pre()})",
+            pairs.append((f"enc_state (run {ex.coq_steps()} {ex.coq_pre()})",
                           X.state_val(ex.dry["state"])))
             metas.append({"what": "state after the uninterrupted operation", "exploration": ex.tag})
             c.count("events_per_operation", f"{ex.opname}:{ex.dry['n']}")
